@@ -1489,3 +1489,48 @@ def storage_writes(fn, is_root):
             if nm in _MUTATING_FUNCS and len(s.args) > _MUTATING_FUNCS[nm] and alias(s.args[_MUTATING_FUNCS[nm]]):
                 out.append((s, "`%s` changes the input in place" % unparse(s)[:60]))
     return out
+
+
+# ----------------------------------------------------------------------------
+# Facts that hold at a statement, as expressions (for arithmetic reasoning over guards)
+# ----------------------------------------------------------------------------
+
+_FLIP = {ast.Lt: ast.GtE, ast.GtE: ast.Lt, ast.Gt: ast.LtE, ast.LtE: ast.Gt, ast.Eq: ast.NotEq, ast.NotEq: ast.Eq, ast.Is: ast.IsNot, ast.IsNot: ast.Is, ast.In: ast.NotIn, ast.NotIn: ast.In}
+
+
+def conjunct_exprs(test, pol=True):
+    """Expressions that all hold when ``test`` has truth value ``pol``: conjunctions are split, negations pushed inward (De Morgan), negated
+    single comparisons flipped.  A disjunction that must hold contributes itself (no conjunct can be extracted)."""
+    if isinstance(test, ast.UnaryOp) and isinstance(test.op, ast.Not):
+        return conjunct_exprs(test.operand, not pol)
+    if isinstance(test, ast.BoolOp):
+        is_and = isinstance(test.op, ast.And)
+        if is_and == pol:   # (a and b) true  /  (a or b) false: every part holds with that polarity
+            out = []
+            for v in test.values:
+                out += conjunct_exprs(v, pol)
+            return out
+        return [test if pol else ast.UnaryOp(op=ast.Not(), operand=test)]
+    if isinstance(test, ast.Compare) and len(test.ops) > 1 and pol:
+        out = []
+        left = test.left
+        for op, r in zip(test.ops, test.comparators):
+            out.append(ast.Compare(left=left, ops=[op], comparators=[r]))
+            left = r
+        return out
+    if pol:
+        return [test]
+    if isinstance(test, ast.Compare) and len(test.ops) == 1 and type(test.ops[0]) in _FLIP:
+        return [ast.Compare(left=test.left, ops=[_FLIP[type(test.ops[0])]()], comparators=test.comparators)]
+    return [ast.UnaryOp(op=ast.Not(), operand=test)]
+
+
+def facts_at(stmt):
+    """Expressions that hold whenever ``stmt`` executes: conjuncts of the enclosing branch tests (with polarity) and negated tests of earlier
+    always-leaving guards."""
+    out = []
+    for t, pol in guards_of(stmt):
+        out += conjunct_exprs(t, pol)
+    for g in exit_guards_before(stmt):
+        out += conjunct_exprs(g.test, False)
+    return out
